@@ -454,6 +454,7 @@ func main() {
 			"equal canonical state (C18 routing canon + prefix tables with log positions as saturated distances, installed entries, reference routes, parked fetches, unfetched log suffix) implies equal futures; SvSync suppression state is not part of it (it only gates the emission of Sync Interests, which are harness events)",
 			"the route table is replayed from the commands the REAL nfdc management loop (NfdMgmtThread.Start, one real goroutine per router, synchronised by a barrier command after every event) hands to the engine's ExecMgmtCmd, not from the queue contents",
 			"where per-neighbour costs tie, every tied neighbour is accepted as best / second-best next hop; the from-scratch computation uses the per-neighbour costs of the RIB entries, not their stored next-hop fields",
+			"the forwarder accepts every management command except under the deviation Fm (one rib command of one router rejected once; quick: <= 1 per history, thorough: <= 2); the mirror clause is evaluated when no retry timer of the code under test is pending (virtual time is advanced until they have run)",
 			"router names have two components (/ndn/rN) except in log-pair (/ndn/site/dept/rN)",
 			"successor states are computed by restoring saved table contents into the live router objects and executing one operation; restores are cross-checked against plain re-execution (first 25 and every 400th per worker)",
 		},
